@@ -41,6 +41,10 @@ def run(ctx):
     c03.r39(ctx, 'R11.8')
     r119(ctx)
     r1110(ctx)
+    from . import c02 as _c02
+    _c02.r211(ctx, 'R11.13')
+    from . import findings2 as _f2
+    _f2.delta_capacity(ctx, 'R11.12')
     from . import c04 as _c04
     _c04.r41(ctx, ctx.repo['writer'])
     from . import callsigs as _cs
